@@ -296,6 +296,10 @@ def pow10(x):
     _ax(sb_and([(x < 0) == (out < 1), (x == 0) == (out == 1)]))
     # coarse numeric enclosure helps the solver with dB ranges: 10^x >= 1 + x*ln10 > 1 + 2.3x
     _ax(out >= x * Fr('2.302585092') + 1)
+    # decade brackets (monotonicity against the exact points 10^k)
+    for kk in range(-6, 7):
+        pk = Fr(10) ** kk
+        _ax(sb_and([(x < kk) == (out < pk), (x == kk) == (out == pk)]))
     _reg()[k] = Entry('pow10', x, out, k)
     return out
 
